@@ -138,7 +138,25 @@ func swarmKnobs(t *Tape) Knobs {
 			}
 		}
 	}
+	k.LegacyRevocationHandler = t.Chance(12)
+	if t.Chance(12) {
+		enableCustomMode(t, &k) // extension points: a custom response mode (some clients are registered for it) ...
+	}
+	if t.Chance(7) {
+		// ... and an operator-supplied client-authentication strategy with a deny-list
+		k.DenyClient = k.Clients[t.Intn(len(k.Clients))].ID
+	}
 	return k
+}
+
+// enableCustomMode registers the response-mode extension and allows the custom mode for some of the clients.
+func enableCustomMode(t *Tape, k *Knobs) {
+	k.CustomResponseMode = true
+	for i := range k.Clients {
+		if t.Chance(60) && k.Clients[i].ResponseModes != nil && !has(k.Clients[i].ResponseModes, SimResponseMode) {
+			k.Clients[i].ResponseModes = append(append([]string{}, k.Clients[i].ResponseModes...), SimResponseMode)
+		}
+	}
 }
 
 func st(op string, c, g int, kv ...string) Step {
@@ -378,7 +396,11 @@ func genHistory(t *Tape, k *Knobs, m mix, n int) []Step {
 				if t.Chance(20 + m.parRedirect) {
 					kv = append(kv, "redirect", "reg:1")
 				}
-				steps = append(steps, st("par_push", t.Intn(nc), 0, kv...))
+				ps := st("par_push", t.Intn(nc), 0, kv...)
+				if m.par >= 50 && t.Chance(8) {
+					ps.A = t.Pick([]string{"bad_secret", "none", "as_other", "as_other"})
+				}
+				steps = append(steps, ps)
 				pars++
 			} else {
 				s := Step{Op: "authz_par", C: -1, G: t.Intn(pars * 2), P: map[string]string{}}
@@ -496,7 +518,7 @@ func init() {
 		Rule: "seeded sequential histories (authorize/redeem/refresh/revoke/introspect/advance, 3 clients, code+hybrid flows, swarm config); non-trivial = the history replays an already-redeemed code at least once; distinct = distinct abstract history shape x store x token strategy"})
 	reg(&Profile{Name: "c01", Prop: "C01", Gen: func(t *Tape) *Plan {
 		k := swarmKnobs(t)
-		m := mix{authz: 14, hybrid: 6, redeem: 22, redeemBad: 4, refresh: 14, refreshOld: 2, refreshForeign: 1, introspect: 6, revoke: 3, revokeBad: 1, advance: 8, pkce: 25}
+		m := mix{authz: 14, hybrid: 6, redeem: 22, redeemBad: 4, refresh: 14, refreshOld: 2, refreshForeign: 1, introspect: 6, revoke: 3, revokeBad: 1, advance: 8, par: 4, pkce: 25}
 		return &Plan{Profile: "c01", Prop: "C01", K: k, Steps: genHistory(t, &k, m, t.Range(12, 45))}
 	}})
 }
@@ -561,7 +583,7 @@ func init() {
 		}
 	})
 	// C08: revocation
-	hist("c08", "C08", mix{authz: 10, hybrid: 2, redeem: 14, refresh: 10, refreshOld: 2, introspect: 6, revoke: 24, revokeBad: 12, advance: 6, password: 5, pkce: 10, mutate: 10}, 14, 48, nil)
+	hist("c08", "C08", mix{authz: 10, hybrid: 2, redeem: 14, refresh: 10, refreshOld: 2, introspect: 6, revoke: 24, revokeBad: 12, advance: 6, password: 5, device: 7, cc: 3, jwtBearer: 2, implicit: 2, pkce: 10, mutate: 10}, 14, 48, nil)
 	// C09: introspection truthfulness over arbitrary histories
 	hist("c09", "C09", mix{authz: 8, hybrid: 3, implicit: 3, redeem: 12, redeemBad: 2, refresh: 10, refreshOld: 3, introspect: 40, revoke: 5, advance: 8, password: 4, cc: 3, device: 8, jwtBearer: 3, clientChange: 1, pkce: 10, mutate: 25, extras: 30}, 16, 55, func(t *Tape, k *Knobs) {
 		k.ScopeStrategy = t.Pick([]string{"", "", "exact", "hierarchic"})
@@ -633,12 +655,44 @@ func init() {
 		return p
 	}})
 
+	// C08 after concurrency: two token requests that redeemed one code (or refreshed one token) at the same time leave several
+	// tokens under one request id in the reference store; an accepted revocation must still make the PRESENTED token inactive
+	reg(&Profile{Name: "c08conc", Prop: "C08", Gen: func(t *Tape) *Plan {
+		k := swarmKnobs(t)
+		k.Store = "plain"
+		var steps []Step
+		for round := 0; round < t.Range(1, 3); round++ {
+			c := t.Intn(len(k.Clients))
+			steps = append(steps, st("authz", c, 0, "scope", "offline photos users.read"))
+			var picks []int
+			for i := 0; i < 40; i++ {
+				picks = append(picks, t.Intn(2))
+			}
+			sub := []Step{{Op: "redeem", C: -1, V: "latest"}, {Op: "redeem", C: -1, V: "latest"}}
+			steps = append(steps, Step{Op: "concurrent", Sub: sub, S: picks})
+			if t.Chance(50) {
+				var p2 []int
+				for i := 0; i < 40; i++ {
+					p2 = append(p2, t.Intn(2))
+				}
+				steps = append(steps, Step{Op: "concurrent", Sub: []Step{{Op: "refresh", C: -1, V: "latest"}, {Op: "refresh", C: -1, V: "latest", G: 1}}, S: p2})
+			}
+			for i := 0; i < t.Range(1, 4); i++ {
+				steps = append(steps, Step{Op: "revoke", C: -1, G: t.Intn(12), V: t.Pick([]string{"", "hint_right", "hint_wrong"})})
+				if t.Chance(40) {
+					steps = append(steps, Step{Op: "introspect", C: 0, G: t.Intn(12)})
+				}
+			}
+		}
+		return &Plan{Profile: "c08conc", Prop: "C08", K: k, Steps: steps}
+	}})
+
 	regProp(&PropSpec{ID: "C02", Profiles: []string{"c02", "c02f"}, Characteristic: []string{"redeem-foreign-client", "redeem-redirect-mismatch"}})
 	regProp(&PropSpec{ID: "C03", Profiles: []string{"c03", "c03f"}, Characteristic: []string{"pkce-bad-verifier"}})
 	regProp(&PropSpec{ID: "C04", Profiles: []string{"c04", "c04f"}, Characteristic: []string{"rt-reuse"}})
 	regProp(&PropSpec{ID: "C05", Profiles: []string{"c05", "c05f"}, Characteristic: []string{"refresh-foreign-client", "refresh-registration-narrowed"}})
 	regProp(&PropSpec{ID: "C07", Profiles: []string{"c07", "c07f"}, Characteristic: []string{"boundary:"}})
-	regProp(&PropSpec{ID: "C08", Profiles: []string{"c08", "c08f"}, Characteristic: []string{"revoke-"}})
+	regProp(&PropSpec{ID: "C08", Profiles: []string{"c08", "c08f", "c08", "c08f", "c08conc"}, Characteristic: []string{"revoke-"}})
 	regProp(&PropSpec{ID: "C09", Profiles: []string{"c09"}, Characteristic: []string{"introspect-"}})
 	regProp(&PropSpec{ID: "C16", Profiles: []string{"c16", "c16f"}, Characteristic: []string{"device-"}})
 	regProp(&PropSpec{ID: "C17", Profiles: []string{"c17", "c17f"}, Characteristic: []string{"par-"}})
